@@ -7,6 +7,7 @@ import (
 	"encoding/binary"
 	"encoding/json"
 	"fmt"
+	"hash/fnv"
 	"os"
 	"os/exec"
 	"path/filepath"
@@ -455,9 +456,13 @@ func wildMatch(pat, s string) bool {
 var slugRe = regexp.MustCompile(`[^A-Za-z0-9_.-]+`)
 
 func slug(s string) string {
+	full := s
 	s = slugRe.ReplaceAllString(s, "_")
 	if len(s) > 90 {
-		s = s[:90]
+		// keep file names of signatures that differ only in their tail (tag combination) apart
+		h := fnv.New32a()
+		_, _ = h.Write([]byte(full))
+		s = fmt.Sprintf("%s-%08x", s[:80], h.Sum32())
 	}
 	return s
 }
